@@ -32,6 +32,10 @@ var tplSpecs = []tplSpec{
 	{"atom_unique_values", "internal/generator/uniqueValues.go", nil},
 	{"nested", "internal/generator/nested.go", nil},
 	{"expression", "internal/generator/expression.go", nil},
+	{"quote", "internal/generator/quote.go", nil},
+	{"quote_all_literals", "internal/generator/quote.go", []string{"regoStringContent"}},
+	{"message", "internal/parser/profile/message.go", []string{"ParseMessageExpression"}},
+	{"names", "internal/generator/generator.go", []string{"pkg", "packageName", "profileName"}},
 }
 
 func stringLits(n ast.Node) []string {
@@ -70,7 +74,17 @@ func (g *gen) templates() {
 					g.errs = append(g.errs, fn+" not found in "+sp.file)
 					continue
 				}
-				lits = append(lits, stringLits(fd)...)
+				if strings.HasSuffix(sp.name, "_all_literals") {
+					// every basic literal as written (characters and numbers too): the case analysis of the escaper
+					ast.Inspect(fd, func(x ast.Node) bool {
+						if bl, ok := x.(*ast.BasicLit); ok {
+							lits = append(lits, bl.Value)
+						}
+						return true
+					})
+				} else {
+					lits = append(lits, stringLits(fd)...)
+				}
 			}
 		}
 		all[sp.name] = lits
